@@ -440,7 +440,7 @@ PROPS["C12"] = {
 }
 
 PROPS["C18"] = {
-    "lean": ["WsVerif.Props.C18", "WsVerif.Bridge.C18"],
+    "lean": ["WsVerif.Props.C18", "WsVerif.Props.C06Sessions", "WsVerif.Props.C14", "WsVerif.Bridge.C18"],
     "rule": "Differential: an instance is driven through a history, reset, driven through an `after` sequence; a freshly constructed instance "
             "with the same configuration is driven through the same `after` sequence; both observations (every result, every destination "
             "write) must be equal. wsutil.Writer.Reset: 11 histories (unflushed data, several fragments, flushed message, Grow, extension "
